@@ -19,7 +19,7 @@ def c12():
                      "C12_range", "C12_matrix_entry", "C12_matrix_symmetric",
                      "C12_most_dissimilar", "C12_medoid", "C12_source_tie_centroid",
                      "C12_nonvacuous"],
-        "suites": [suite_bits.suite_bits],
+        "suites": [suite_bits.suite_bits, __import__('suite_numpysem').suite_numpysem],
         "search": oracles.search_c12,
         "replay": oracles.replay_c12,
         "level": "proof",
@@ -45,7 +45,7 @@ def c10():
                      "C10_slack_not_negative", "C10_slack_zero_from_1000",
                      "C10_slack_mono_tolerance", "C10_slack_nonneg", "C10_legacy",
                      "C10_exp_hyps_satisfiable", "C10_nonvacuous"],
-        "suites": [suite_merges.suite_merges],
+        "suites": [suite_merges.suite_merges, __import__('suite_numpysem').suite_numpysem],
         "search": oracles.search_c10,
         "replay": oracles.replay_c10,
         "level": "proof",
@@ -71,7 +71,7 @@ def c11():
                      "C11_source_tie_radius", "C11_source_tie_diameter", "C11_exact",
                      "C11_nowrap_partial", "C11_all_empty", "C11_two_is_tanimoto",
                      "C11_column_order", "C11_row_order", "C11_complementary", "C11_nonvacuous"],
-        "suites": [suite_isim.suite_isim, suite_isim.suite_isim_wrappers],
+        "suites": [suite_isim.suite_isim, suite_isim.suite_isim_wrappers, __import__('suite_numpysem').suite_numpysem],
         "search": oracles.search_c11,
         "replay": oracles.replay_c11,
         "level": "proof",
@@ -228,7 +228,7 @@ def c04():
                      "C04_chunks", "C04_run_chunks", "C04_packed_form", "C04_function",
                      "C04_release_example"],
         "model_files": ["Model/Obs.v", "Model/Mem.v"],
-        "suites": [suite_forms.suite_forms, suite_forms.suite_mmap],
+        "suites": [suite_forms.suite_forms, suite_forms.suite_mmap, __import__('suite_numpysem').suite_numpysem],
         "search": suite_forms.search_c04,
         "replay": suite_forms.replay_c04,
         "level": "proof",
@@ -351,7 +351,7 @@ def c16():
                      "C16_file_seq_unsorted", "C16_names_sorted", "C16_digits_enough",
                      "C16_split_merge", "C16_source_tie", "C16_parts_cover"],
         "model_files": ["Model/FpsUtil.v"],
-        "suites": [suite_fps.suite_file_seq, suite_fps.suite_batches, suite_fps.suite_fps_cli],
+        "suites": [suite_fps.suite_file_seq, suite_fps.suite_batches, suite_fps.suite_fps_cli, __import__('suite_numpysem').suite_numpysem],
         "search": suite_fps.search_c16,
         "replay": suite_fps.replay_c16,
         "findings": {"multi-file-skip-invalid-no-index": suite_fps.finding_multi_file_skip_invalid},
@@ -426,7 +426,7 @@ def c14():
                      "C14_no_partial_final", "C14_run_is_writes", "C14_failed_run_no_final",
                      "C14_nonvacuous", "C14_instance_not_trivial"],
         "model_files": ["Model/Multiround.v", "Gen/GMr.v", "Proofs/GenTieMr.v"],
-        "suites": [suite_mr.suite_crash, suite_mr.suite_mr_files],
+        "suites": [suite_mr.suite_crash, suite_mr.suite_mr_files, __import__('suite_numpysem').suite_numpysem],
         "search": suite_mr.search_mr("C14"),
         "replay": suite_mr.replay_c14,
         "level": "proof",
